@@ -765,7 +765,7 @@ fn composite(ctx: &mut Ctx, rng: &mut Rng, v4s: &[IpCase], v6s: &[IpCase]) {
 }
 
 pub fn run_ip(ctx: &mut Ctx) {
-    let batches = ctx.stage_budget((8_000, 250_000), 1_200, 2, 0);
+    let batches = ctx.stage_budget((8_000, 750_000), 1_200, 2, 0);
     let batch = if ctx.stage == Stage::Miri { 2 } else { 10 };
     let mut rng = ctx.rng("ip");
     for _ in 0..batches {
